@@ -5,6 +5,7 @@ import SR.Checker.Sim
 import SR.Checker.Verdict
 import SR.Checker.Assert
 import SR.Proofs.Checker.Fuel
+import SR.Proofs.Checker.SimFuel
 /-! Driver commands of the checker group (C01, C02, C03, C11, C12, C13): `chk` runs the machine
 scheduler; `o-chk <prop> ...` evaluates the declarative oracle of one property on implementation outputs. -/
 namespace SR.Drv.Chk
@@ -247,7 +248,11 @@ def handle : Drv.Handler
     let (cfg, fin) ← parseCfg cfg
     let ans ← ans.nats?
     let c : Case := { g, props := ps, cfg, finish := fin }
+    if !decide g.WF then pure "ill-formed-graph" else
     let r := Sim.runTraces c.params (g.n + 3) (ans.length + 20) ans {}
+    -- fuel g.n + 3 per trace is sufficient on a well-formed graph (C03_sim_fuel_sufficient); the number of traces is enough
+    -- whenever the run stops within it (C03_sim_trace_budget_stable) — otherwise say so instead of answering a truncated run
+    if !Sim.stops c.params r then pure "trace-budget-exhausted" else
     let s : St Nat Nat := { gen := [], frontier := [], active := [], done := [], disc := r.disc, stateCount := r.stateCount,
                             maxDepth := r.maxDepth, visits := r.visits, early := false, stopped := false }
     -- unique_state_count of the simulation checker is its state_count
@@ -261,7 +266,9 @@ def handle : Drv.Handler
     let ans ← ans.nats?
     let c : Case := { g, props := ps, cfg, finish := fin }
     let P : Params Nat Nat Nat := { c.params with key := fun s => rep.getD s s }
+    if !decide g.WF then pure "ill-formed-graph" else
     let r := Sim.runTraces P (g.n + 3) (ans.length + 20) ans {}
+    if !Sim.stops P r then pure "trace-budget-exhausted" else
     let s : St Nat Nat := { gen := [], frontier := [], active := [], done := [], disc := r.disc, stateCount := r.stateCount,
                             maxDepth := r.maxDepth, visits := r.visits, early := false, stopped := false }
     pure ((showSt s).replace "(uniq 0)" s!"(uniq {r.stateCount})")
